@@ -1011,3 +1011,128 @@ variant('b-bearer-strips', ['C18'], EX + 'authentication.py',
         ('C18.f', 'AuthenticationBearer'))
 variant('t-tag-guard-ge', ['C18'], EX + 'tagging.py',
         "            if len(tag) > 255:", "            if len(tag) >= 256:", kind='twin')
+
+# ----------------------------------------------------------------------------------------------- C19
+RH = 'rsocket/routing/routing_request_handler.py'
+RR = 'rsocket/routing/request_router.py'
+variant('b-fnf-routes-directly', ['C19'], RH,
+        """        try:
+            await self._parse_and_route(FrameType.REQUEST_FNF, payload)""", """        try:
+            composite_metadata = self._parse_composite_metadata(payload.metadata)
+            await self.router.route(FrameType.REQUEST_FNF, require_route(composite_metadata), payload,
+                                    composite_metadata)""", ('C19.a', ''))
+variant('b-verify-not-awaited', ['C19'], RH,
+        "        await self._verify_authentication(route, composite_metadata)",
+        "        self._verify_authentication(route, composite_metadata)", ('C19.a', 'dominates'))
+variant('b-verify-after-route', ['C19'], RH,
+        """        await self._verify_authentication(route, composite_metadata)
+        return await self.router.route(frame_type, route, payload, composite_metadata)""",
+        """        result = await self.router.route(frame_type, route, payload, composite_metadata)
+        await self._verify_authentication(route, composite_metadata)
+        return result""", ('C19.a', 'dominates'))
+variant('b-verify-missing-auth-passes', ['C19'], RH,
+        """                    await self.authentication_verifier(route, item.authentication)
+                    return
+
+            raise Exception('Authentication required but not provided')""",
+        """                    await self.authentication_verifier(route, item.authentication)
+                    return""", ('C19.a', 'verifier decides'))
+variant('b-verify-swallows-rejection', ['C19'], RH,
+        """        await self._verify_authentication(route, composite_metadata)
+        return await""", """        try:
+            await self._verify_authentication(route, composite_metadata)
+        except Exception:
+            logger().warning('authentication failed')
+        return await""", ('C19.a', 'dominates'))
+variant('b-verify-only-for-non-push', ['C19'], RH,
+        "        await self._verify_authentication(route, composite_metadata)\n",
+        "        if frame_type != FrameType.METADATA_PUSH:\n            await self._verify_authentication(route, composite_metadata)\n",
+        ('C19.a', 'dominates'))
+variant('b-route-map-crossed', ['C19'], RR,
+        """            FrameType.REQUEST_STREAM: self._stream_routes,
+            FrameType.REQUEST_RESPONSE: self._response_routes,""",
+        """            FrameType.REQUEST_STREAM: self._response_routes,
+            FrameType.REQUEST_RESPONSE: self._stream_routes,""", ('C19.b', 'routing table row'))
+variant('b-unknown-slot-crossed', ['C19'], RR,
+        """        elif frame_type == FrameType.REQUEST_STREAM:
+            return self._unknown.stream
+        elif frame_type == FrameType.REQUEST_CHANNEL:
+            return self._unknown.channel""", """        elif frame_type == FrameType.REQUEST_STREAM:
+            return self._unknown.channel
+        elif frame_type == FrameType.REQUEST_CHANNEL:
+            return self._unknown.stream""", ('C19.b', 'routing table row'))
+variant('b-entry-wrong-frame-type', ['C19'], RH,
+        "            return await self._parse_and_route(FrameType.REQUEST_CHANNEL, payload)",
+        "            return await self._parse_and_route(FrameType.REQUEST_STREAM, payload)", ('C19.b', 'channel'))
+variant('b-decorator-wrong-container', ['C19'], RR,
+        """    def fire_and_forget(self, route: str):
+        return decorator_factory(self._fnf_routes, route)""", """    def fire_and_forget(self, route: str):
+        return decorator_factory(self._response_routes, route)""", ('C19.b', 'fire_and_forget'))
+variant('b-unknown-before-exact', ['C19'], RR,
+        """        if route in self._route_map_by_frame_type[frame_type]:
+            route_info = self._route_map_by_frame_type[frame_type][route]
+        else:
+            route_info = self._get_unknown_route(frame_type)""",
+        """        route_info = self._get_unknown_route(frame_type)
+        if route_info is None and route in self._route_map_by_frame_type[frame_type]:
+            route_info = self._route_map_by_frame_type[frame_type][route]""", ('C19.c', 'exact key'))
+variant('b-require-route-last-tag', ['C19'], 'rsocket/extensions/helpers.py',
+        "            return item.tags[0].decode()", "            return item.tags[-1].decode()", ('C19.c', 'require_route'))
+variant('b-missing-route-not-an-error', ['C19'], RR,
+        """        if route_info is None:
+            raise RSocketUnknownRoute(route)
+""", """        if route_info is None:
+            return None
+""", ('C19.c', 'exact key'))
+
+# ----------------------------------------------------------------------------------------------- C06
+SG = 'rsocket/streams/stream_from_generator.py'
+variant('b-credit-plus-one', ['C06'], H + 'request_stream_responder.py',
+        "            self.subscriber.subscription.request(frame.request_n)",
+        "            self.subscriber.subscription.request(frame.request_n + 1)", ('C06.a', 'RequestNFrame'))
+variant('b-initial-credit-ignored', ['C06'], H + 'request_stream_responder.py',
+        "            self.subscriber.subscription.request(frame.initial_request_n)",
+        "            self.subscriber.subscription.request(MAX_REQUEST_N)", ('C06.a', 'RequestStreamFrame'))
+variant('b-request-n-frame-default', ['C06'], 'rsocket/streams/stream_handler.py',
+        "        self.socket.send_frame(to_request_n_frame(self.stream_id, n))",
+        "        self.socket.send_frame(to_request_n_frame(self.stream_id))", ('C06.a', 'REQUEST_N carries'))
+variant('b-stream-request-default-n', ['C06'], H + 'request_stream_requester.py',
+        "            initial_request_n=self._initial_request_n,\n", "", ('C06.a', 'request frame carries'))
+variant('b-feedback-doubles', ['C06', 'C20'], 'rsocket/reactivex/back_pressure_publisher.py',
+        "        self._feedback.on_next(n)", "        self._feedback.on_next(n * 2)", ('C06.a', 'reactivex InternalBackPressurePublisher'))
+variant('b-collector-rerequest-max', ['C06'], 'rsocket/awaitable/collector_subscriber.py',
+        "                self.subscription.request(self._limit_rate)", "                self.subscription.request(MAX_REQUEST_N)",
+        ('C06.a', 'CollectorSubscriber'))
+variant('b-generate-n-plus-one', ['C06'], SG,
+        "        async for i in async_range(n):\n            next_value = next(self._iteration, _finished_iterator)",
+        "        async for i in async_range(n + 1):\n            next_value = next(self._iteration, _finished_iterator)",
+        ('C06.b', 'StreamFromGenerator._generate_next_n'))
+variant('b-async-range-inclusive', ['C06'], 'rsocket/async_helpers.py',
+        "    for i in range(count):", "    for i in range(count + 1):", ('C06.b', 'async_range'))
+variant('b-generate-two-per-credit', ['C06'], SG,
+        """            is_complete_sent = next_value[1]
+            yield next_value""", """            is_complete_sent = next_value[1]
+            yield next_value
+            if not is_complete_sent:
+                extra = next(self._iteration, _finished_iterator)
+                if extra is not _finished_iterator:
+                    yield extra""", ('C06.b', 'StreamFromGenerator._generate_next_n'))
+variant('b-rx-feeder-unbounded', ['C06', 'C20'], 'rsocket/reactivex/back_pressure_publisher.py',
+        """                    next_n = await request_n_queue.get()
+                    async for i in async_range(next_n):
+                        event = await iterator.__anext__()""", """                    next_n = await request_n_queue.get()
+                    async for i in async_range(MAX_REQUEST_N):
+                        event = await iterator.__anext__()""", ('C06.b', 'from_async_event_iterator'))
+variant('b-request-queues-twice', ['C06'], SG,
+        "        self._request_n_queue.put_nowait(n)\n", "        self._request_n_queue.put_nowait(n)\n        self._request_n_queue.put_nowait(n)\n",
+        ('C06.b', 'StreamFromGenerator.request'))
+variant('b-prefetch-outside-credit', ['C06'], SG,
+        """            await self._start_generator()
+
+            while True:""", """            await self._start_generator()
+            self._queue.put_nowait(next(self._iteration))
+
+            while True:""", ('C06.c', 'delivery queue'))
+variant('t-credit-local-var', ['C06'], H + 'request_stream_responder.py',
+        "            self.subscriber.subscription.request(frame.request_n)",
+        "            credit = frame.request_n\n            self.subscriber.subscription.request(credit)", kind='twin')
